@@ -10,18 +10,27 @@ def run(case):
     env = {}
     cid_of = {}
     out = []
+    kinds = {int(k): v for k, v in case.get('kinds', {}).items()}
+    raises_ids = sorted(k for k, v in kinds.items() if v == 'raises')
+    excs = {cid: type(f'E{cid}', (Exception,), {}) for cid in raises_ids}
     for c in case['classes']:
         body = {}
         for mname, md in c['methods']:
             def mk(mname=mname, cname=c['name']):
-                def m(self, x): return ('body', cname, mname, self)
+                def m(self, x):
+                    if isinstance(x, tuple): raise excs[x[1]]()
+                    return ('body', cname, mname, self)
                 m.__name__ = mname
                 return m
             fn = mk()
             for cid in md['contracts']:
-                dec = deal.pre((lambda cid: (lambda self, x: x != cid))(cid))
+                if kinds.get(cid) == 'raises':
+                    # a raises contract that forbids exactly its own exception class among the scenario's classes
+                    dec = deal.raises(*[excs[j] for j in raises_ids if j != cid])
+                else:
+                    dec = deal.pre((lambda cid: (lambda self, x: x != cid))(cid))
                 for cell in dec.__closure__ or ():
-                    if type(cell.cell_contents).__name__ == 'Validator': cid_of[id(cell.cell_contents)] = cid
+                    if type(cell.cell_contents).__name__ in ('Validator', 'RaisesValidator'): cid_of[id(cell.cell_contents)] = cid
                 fn = dec(fn)
             if md['inherit'] and not c.get('inherit_class'):
                 fn = deal.inherit(fn)
@@ -43,14 +52,20 @@ def run(case):
             selfs = set()
             for cid in all_ids + [10**6]:
                 try:
+                    if kinds.get(cid) == 'raises':
+                        getattr(inst, mname)(('raise', cid)); continue
                     r = getattr(inst, mname)(cid)
                     selfs.add('instance' if r[3] is inst else ('class' if r[3] is cls else 'other'))
                 except deal.PreContractError:
                     enforced.append(cid)
+                except deal.RaisesContractError:
+                    enforced.append(cid)
                 except BaseException as e:
-                    selfs.add('error:' + type(e).__name__)
+                    if not (kinds.get(cid) == 'raises' and isinstance(e, excs[cid])):
+                        selfs.add('error:' + type(e).__name__)
             res[attempt] = (enforced, sorted(selfs))
-        recs = [cid_of.get(id(r._wrapped), '?') for r in di.get_contracts(getattr(cls, mname)) if isinstance(r, di.Pre)]
+        got = list(di.get_contracts(getattr(cls, mname)))
+        recs = [cid_of.get(id(r._wrapped), '?') for r in got if isinstance(r, di.Pre)] + [cid_of.get(id(r._wrapped), '?') for r in got if isinstance(r, di.Raises)]
         mro = '>'.join(k.__name__ for k in cls.__mro__)
         out.append({'line': f'{cname}.{mname}=' + ','.join(str(x) for x in recs) + ' mro=' + mro,
                     'enforced_first': res[1][0], 'enforced_second': res[2][0], 'self_first': res[1][1], 'self_second': res[2][1]})
